@@ -15,6 +15,9 @@ import sys
 from . import smt
 from .smt import T, is_t, I, R, B, S, And, Or, Not, Implies, Ite, Eq, lift
 
+PRUNE = os.environ.get('VERIF_PRUNE', '1') != '0'
+TRUE_T = B(True)
+FALSE_T = B(False)
 REPO = os.environ.get("VERIF_REPO", "/repo")
 
 
@@ -28,6 +31,10 @@ class NoContract(Unsupported):
 
 class PathEnd(Exception):
     """path cut (after inv.step, or assume false)"""
+
+
+class Infeasible(PathEnd):
+    """the path condition was proved inconsistent (pruned)"""
 
 
 class PyRaise(Exception):
@@ -341,6 +348,7 @@ class Ctx:
         self.log = []            # effect log
         self.values = []         # input terms for counter-models
         self.notes = []
+        self.univ = []           # assumed universal facts j -> Bool term (instantiated at loop indices)
 
     def decide(self, n, label=""):
         k = len(self.trace)
@@ -353,6 +361,8 @@ class Ctx:
 
     def fresh(self, base, sort, bk=None):
         base = "".join(ch if ch.isalnum() or ch == "_" else "_" for ch in str(base)) or "v"
+        if base in SMT_RESERVED or base[0].isdigit():
+            base = base + "_"
         self.counter[base] += 1
         name = f"{base}!{self.counter[base]}" if self.counter[base] > 1 or base in self.declset else base
         while name in self.declset:
@@ -394,13 +404,29 @@ class Ctx:
         if t.sx != "true":
             self.pc.append(t)
 
+    def const_names(self):
+        if getattr(self, "_cn_len", -1) != len(self.decls):
+            self._cn = frozenset(n for n, a, r in self.decls if not a)
+            self._cn_len = len(self.decls)
+        return self._cn
+
     def oblige(self, name, kind, goal, where="", info=None):
         self.obligs.append(Oblig(name, kind, goal, len(self.pc), len(self.decls), where, info))
 
 
-def next_prefix(trace):
+SMT_RESERVED = set("""sin cos tan exp pi abs div mod not and or xor select store true false ite let forall exists as
+ int real str re seq set bag min max sqrt pow to_int to_real is_int distinct iff implies par assert check define
+ declare push pop exit get set_option match arcsin arccos arctan csc sec cot sinh cosh tanh iand int2bv bv2nat
+ fp roundNearestTiesToEven RNE RNA RTP RTN RTZ NaN nil cons head tail insert tuple unit len contains at replace
+ update rev prefixof suffixof indexof range loop opt comp diff inter union complement all allchar none member
+ subset card choose witness lambda""".split())
+
+
+def next_prefix(trace, floor=0):
+    """next decision prefix in DFS order; None when the subtree rooted at the first
+    'floor' decisions is exhausted"""
     tr = list(trace)
-    while tr:
+    while len(tr) > floor:
         n, c, _ = tr[-1]
         if c + 1 < n:
             return [x[1] for x in tr[:-1]] + [c + 1]
@@ -449,6 +475,41 @@ class Interp:
     def choose(self, n, label=""):
         return self.ctx.decide(n, label)
 
+    def prune(self, lit):
+        """drop the path if the newest literal contradicts its cone of influence
+        (in-process z3, small budget; only a proved 'unsat' prunes)"""
+        if not PRUNE or self.spec_mode:
+            return
+        ctx = self.ctx
+        consts = ctx.const_names()
+        pc = [p.sx for p in ctx.pc]
+        sub = smt.cone(pc, lit.sx, consts, 2)
+        if any("(forall " in a or "(exists " in a for a in sub):
+            sub = [a for a in sub if "(forall " not in a and "(exists " not in a]
+        text = " ".join(sub)
+        toks = set(smt._TOK.findall(text))
+        header = [f"(declare-sort {u} 0)" for u in ctx.usorts]
+        tsorts = smt.collect_tuple_sorts([r for n, a, r in ctx.decls if n in toks] +
+                                         [x for n, a, r in ctx.decls if n in toks for x in a])
+        for s_ in tsorts:
+            fields = " ".join(f"({smt.tup_sel(s_, i)} {smt.sort_name(x)})" for i, x in enumerate(s_[1]))
+            header.append(f"(declare-datatypes (({smt.sort_name(s_)} 0)) ((({smt.tup_mk(s_)} {fields}))))")
+        for n, a, r in ctx.decls:
+            if n in toks:
+                header.append(f"(declare-fun {n} ({' '.join(smt.sort_name(x) for x in a)}) {smt.sort_name(r)})")
+        if smt.quick_unsat(header, sub):
+            raise Infeasible()
+
+    def forall_int(self, fn, instances=()):
+        """assume (forall j. fn(j)) and remember it, so that ground instances can be
+        added at loop indices (instantiating an assumed universal fact is sound)"""
+        self.ctx.counter["_q"] += 1
+        j = T("Int", f"q{self.ctx.counter['_q']}_j")
+        self.ctx.assume(smt.Forall([j], fn(j)))
+        self.ctx.univ.append(fn)
+        for x in instances:
+            self.ctx.assume(fn(x))
+
     def raise_(self, cls, *args, **fields):
         raise PyRaise(ExcVal(cls, args, fields))
 
@@ -489,11 +550,10 @@ class Interp:
             if self.spec_mode:
                 raise Unsupported("symbolic truth test in spec mode must use and/or/implies/ite")
             c = self.ctx.decide(2, label)
-            if c == 0:
-                self.ctx.assume(t)
-                return True
-            self.ctx.assume(Not(t))
-            return False
+            lit = t if c == 0 else Not(t)
+            self.ctx.assume(lit)
+            self.prune(lit)
+            return c == 0
         if isinstance(v, (FStr, Obj, Opaque, RepoFunc, BoundMethod, Builtin, EnvFunc)):
             return True
         return bool(v)
@@ -505,6 +565,8 @@ class Interp:
             if name in f.env:
                 return f.env[name]
             f = f.parent
+        if self.spec_mode and name in self.spec_names:
+            return self.spec_names[name]
         if name in self.env_over:
             return self.env_over[name]
         mod = frame.func.module if frame.func is not None else None
@@ -713,14 +775,23 @@ class Interp:
 
     def e_BoolOp(self, node, fr):
         if self.spec_mode:
-            vals = [self.eval(v, fr) for v in node.values]
-            if any(is_t(v) for v in vals):
-                ts = [self.as_bool(v) for v in vals]
-                return And(*ts) if isinstance(node.op, ast.And) else Or(*ts)
-            res = vals[0]
-            for v in vals[1:]:
-                res = (res and v) if isinstance(node.op, ast.And) else (res or v)
-            return res
+            # concrete operands short-circuit (python semantics); symbolic ones are combined
+            is_and = isinstance(node.op, ast.And)
+            ts = []
+            last = None
+            for v in node.values:
+                x = self.eval(v, fr)
+                last = x
+                if is_t(x):
+                    ts.append(self.as_bool(x))
+                    continue
+                if is_and and not x:
+                    return x if not ts else FALSE_T
+                if not is_and and x:
+                    return x if not ts else TRUE_T
+            if ts:
+                return And(*ts) if is_and else Or(*ts)
+            return last
         res = None
         for k, v in enumerate(node.values):
             res = self.eval(v, fr)
@@ -896,6 +967,7 @@ class Interp:
 
     old_env = {}
     old_mode = False
+    spec_names = {}
 
     def e_ListComp(self, node, fr):
         return list(self._comp(node, fr))
